@@ -61,10 +61,10 @@ var topos = map[string]topo{
  x: Int%[2]s
  s: Int
  books: [Book] }
-type Book { name: String%[2]s
- x: Int%[2]s
+type Book { name: String%[3]s
+ x: Int%[3]s
  s: Int
- author: Author%[1]s }`, ix(fk), ix(fld))
+ author: Author%[1]s }`, ix(fk), ix(fld || idx == "pfield"), ix(fld || idx == "cfield"))
 		}},
 	"t2": {name: "t2", cols: []string{"Address", "User"}, rels: []relDef{{"Address", "User", "address", "user", true}},
 		sdl: func(idx string) string {
@@ -78,14 +78,14 @@ type Book { name: String%[2]s
  x: Int%[2]s
  s: Int
  user: User }
-type User { name: String%[2]s
- x: Int%[2]s
+type User { name: String%[3]s
+ x: Int%[3]s
  s: Int
- address: Address @primary%[1]s }`, fkIdx, ix(fld))
+ address: Address @primary%[1]s }`, fkIdx, ix(fld || idx == "pfield"), ix(fld || idx == "cfield"))
 		}},
 	"t3": {name: "t3", cols: []string{"Emp"}, rels: []relDef{{"Emp", "Emp", "boss", "reports", false}},
 		sdl: func(idx string) string {
-			fk, fld := idx == "fk" || idx == "both", idx == "field" || idx == "both"
+			fk, fld := idx == "fk" || idx == "both", idx == "field" || idx == "both" || idx == "pfield" || idx == "cfield"
 			return fmt.Sprintf(`type Emp { name: String%[2]s
  x: Int%[2]s
  s: Int
@@ -105,10 +105,10 @@ type Author { name: String%[2]s
  s: Int
  publisher: Publisher%[1]s
  books: [Book] }
-type Book { name: String%[2]s
- x: Int%[2]s
+type Book { name: String%[3]s
+ x: Int%[3]s
  s: Int
- author: Author%[1]s }`, ix(fk), ix(fld))
+ author: Author%[1]s }`, ix(fk), ix(fld || idx == "pfield"), ix(fld || idx == "cfield"))
 		}},
 }
 
@@ -285,6 +285,13 @@ func (w *world) query(n *vnode.Node, t []string) string {
 	var q string
 	root := r.parent
 	switch kind {
+	case "pdocidf", "cdocidf", "kidsdocid", "byfk":
+		// the document addressed may never have been created (its create was rejected)
+		if w.docs[strings.Split(arg, ",")[0]] == nil {
+			return ""
+		}
+	}
+	switch kind {
 	case "kids":
 		q = fmt.Sprintf(`query { %s { _docID %s { _docID } } }`, r.parent, r.kids)
 	case "parent":
@@ -327,6 +334,21 @@ func (w *world) query(n *vnode.Node, t []string) string {
 		q, root = fmt.Sprintf(`query { %s(order: {%s: {x: ASC}}) { _docID %s { x } } }`, r.child, r.fk, r.fk), r.child
 	case "kidsorder":
 		q = fmt.Sprintf(`query { %s { _docID %s(order: {x: DESC}, limit: %s) { x } } }`, r.parent, r.kids, arg)
+	case "cfilterne": // children whose parent is not called so (a child without a parent has no such parent either)
+		q, root = fmt.Sprintf(`query { %s(filter: {%s: {name: {_ne: "%s"}}}) { _docID } }`, r.child, r.fk, arg), r.child
+	case "cfilterown": // a condition on the parent next to one on the child's own field
+		ab := strings.Split(arg, ",")
+		q, root = fmt.Sprintf(`query { %s(filter: {%s: {name: {_eq: "%s"}}, x: {_gt: %s}}) { _docID } }`, r.child, r.fk, ab[1], ab[0]), r.child
+	case "pcountf": // parents chosen through their related documents, with the count of ALL their related documents
+		q = fmt.Sprintf(`query { %s(filter: {%s: {x: {_gt: %s}}}) { _docID _count(%s: {}) } }`, r.parent, r.kids, arg, r.kids)
+	case "pdocidf": // one parent addressed by identifier, kept or not by a condition on its related documents
+		ab := strings.Split(arg, ",")
+		q = fmt.Sprintf(`query { %s(docID: "%s", filter: {%s: {x: {_gt: %s}}}) { _docID } }`, r.parent, w.docs[ab[0]].docID, r.kids, ab[1])
+	case "cdocidf": // one child addressed by identifier, kept or not by a condition on its parent
+		ab := strings.Split(arg, ",")
+		q, root = fmt.Sprintf(`query { %s(docID: "%s", filter: {%s: {name: {_eq: "%s"}}}) { _docID } }`, r.child, w.docs[ab[0]].docID, r.fk, ab[1]), r.child
+	case "kidsdocid": // the related list narrowed to one identifier
+		q = fmt.Sprintf(`query { %s { _docID %s(docID: "%s") { _docID } } }`, r.parent, r.kids, w.docs[arg].docID)
 	case "topcount":
 		q, root = fmt.Sprintf(`query { _count(%s: {filter: {%s: {x: {_gt: %s}}}}) }`, r.child, r.fk, arg), "_count"
 	case "topsum":
@@ -376,7 +398,7 @@ func (w *world) query(n *vnode.Node, t []string) string {
 		d := row.(map[string]any)
 		l := w.lab(d["_docID"])
 		switch kind {
-		case "kids", "pfilterkids", "pfiltername", "kidsor", "kidsor2":
+		case "kids", "pfilterkids", "pfiltername", "kidsor", "kidsor2", "kidsdocid":
 			items = append(items, l+":"+kidList(d[r.kids], "_docID"))
 		case "psorted":
 			items = append(items, num(d["x"])+"/"+l+":"+kidList(d[r.kids], "_docID"))
@@ -386,11 +408,11 @@ func (w *world) query(n *vnode.Node, t []string) string {
 				p = w.lab(pm["_docID"])
 			}
 			items = append(items, l+":"+p)
-		case "byfk", "pfilter", "cfilter", "hop2filter", "pfilteror", "cfilteror":
+		case "byfk", "pfilter", "cfilter", "hop2filter", "pfilteror", "cfilteror", "cfilterne", "cfilterown", "pdocidf", "cdocidf":
 			items = append(items, l)
 		case "agg":
 			items = append(items, fmt.Sprintf("%s:count=%s,sum=%s", l, num(d["_count"]), num(d["_sum"])))
-		case "aggf":
+		case "aggf", "pcountf":
 			items = append(items, fmt.Sprintf("%s:count=%s", l, num(d["_count"])))
 		case "kidsaggf":
 			items = append(items, fmt.Sprintf("%s:%s:count=%s", l, kidList(d[r.kids], "_docID"), num(d["_count"])))
@@ -688,7 +710,7 @@ var names = []string{"ann", "bob", "cat"}
 
 func genCase(r *vc.Rng, id uint64) []string {
 	tn := []string{"t1", "t1", "t2", "t3", "t5"}[r.Intn(5)]
-	idx := []string{"fk", "field", "both", "both"}[r.Intn(4)]
+	idx := []string{"fk", "field", "both", "both", "pfield", "cfield"}[r.Intn(6)]
 	if tn == "t2" && r.Chance(1, 3) {
 		idx = "ufk"
 	}
@@ -790,6 +812,23 @@ func genCase(r *vc.Rng, id uint64) []string {
 		}
 		for _, nm := range names {
 			lines = append(lines, "q cfiltername "+p+" "+nm, "q pfiltername "+p+" "+nm, "q topsum "+p+" "+nm)
+			lines = append(lines, "q cfilterne "+p+" "+nm, "q cfilterown "+p+" "+strconv.Itoa(r.Intn(5)-1)+","+nm)
+		}
+		for _, v := range []int{-1, r.Intn(5)} {
+			if !rel.single {
+				lines = append(lines, "q pcountf "+p+" "+strconv.Itoa(v))
+			}
+			if pls := labels[rel.parent]; len(pls) > 0 {
+				lines = append(lines, "q pdocidf "+p+" "+pls[r.Intn(len(pls))]+","+strconv.Itoa(v))
+			}
+		}
+		if cls := labels[rel.child]; len(cls) > 0 {
+			for i := 0; i < 2; i++ {
+				lines = append(lines, "q cdocidf "+p+" "+cls[r.Intn(len(cls))]+","+names[r.Intn(len(names))])
+			}
+			if !rel.single {
+				lines = append(lines, "q kidsdocid "+p+" "+cls[r.Intn(len(cls))])
+			}
 		}
 		if !rel.single {
 			lines = append(lines, "q agg "+p, "q kidsorder "+p+" "+strconv.Itoa(1+r.Intn(2)))
